@@ -564,8 +564,9 @@ def _goal_conjuncts(g):
     return [g]
 
 
-def solve(hyps, goal, timeout_ms=20000, dyadic_syms=None, seed=0):
-    """returns ('proved'|'refuted'|'unknown', model or None, seconds, reason)"""
+def solve(hyps, goal, timeout_ms=20000, dyadic_syms=None, seed=0, allow_split=True):
+    """returns ('proved'|'refuted'|'unknown', model or None, seconds, reason).  Budget: about 2.5 x timeout_ms in the worst case
+    (twins: half, whole goal: one, conjunct-wise fallback: one, shared between the conjuncts)"""
     t0 = time.time()
     from . import induct
     if induct.SPEC and induct.mentions_spec(list(hyps) + [goal]):
@@ -573,10 +574,11 @@ def solve(hyps, goal, timeout_ms=20000, dyadic_syms=None, seed=0):
         # (stable, milliseconds), one query per conjunct of the goal; z3's own unfolding of the definitions below is the
         # fallback and the source of models
         all_proved = True
-        for cj in _goal_conjuncts(goal):
+        cjs = _goal_conjuncts(goal)
+        for cj in cjs:
             terms, axioms = induct.with_unfoldings(list(hyps) + [z3.Not(cj)])
             s = z3.Solver()
-            s.set("timeout", max(2000, timeout_ms // 2))
+            s.set("timeout", max(2000, timeout_ms // (2 * max(1, min(len(cjs), 4)))))
             s.set("random_seed", seed)
             s.add(*terms)
             s.add(*axioms)
@@ -599,10 +601,11 @@ def solve(hyps, goal, timeout_ms=20000, dyadic_syms=None, seed=0):
     reason = s.reason_unknown()
     # undecided as a whole: a conjunction is proved when each conjunct is (smaller nonlinear queries are far more stable)
     parts = _goal_conjuncts(goal)
-    if len(parts) > 1:
+    if len(parts) > 1 and allow_split:
+        per = max(2000, timeout_ms // len(parts))
         for cj in parts:
             s2 = z3.Solver()
-            s2.set("timeout", timeout_ms)
+            s2.set("timeout", per)
             s2.set("random_seed", seed)
             for h in hyps:
                 s2.add(h)
@@ -898,6 +901,10 @@ def cross_check(I, c, cfg, n, seed, res, decimal=False):
     res.samples_failed += failed
 
 
+def _failed(res):
+    return sum(1 for o in res.obligations if o["status"] != "proved" and not o["status"].startswith("known:"))
+
+
 def verify(cname, cfg, timeout_ms=20000, seed=0, repo_src=None, samples=0):
     """Verify contract `cname` under configuration `cfg`.  Returns Result (JSON-able)."""
     c = REGISTRY[cname]
@@ -914,8 +921,9 @@ def verify(cname, cfg, timeout_ms=20000, seed=0, repo_src=None, samples=0):
     while work:
         dec = work.pop()
         if sum(1 for o in res.obligations if o.get("replayed")) >= 3:
-            res.errors.append("stopped early: 3 replayed violations in this configuration") if False else None
             break
+        if _failed(res) >= 2:
+            break       # this configuration already fails: further paths would only add time (nothing is reported as held)
         if res.paths >= c.max_paths:
             res.errors.append(f"path budget {c.max_paths} exhausted")
             break
@@ -945,11 +953,14 @@ def verify(cname, cfg, timeout_ms=20000, seed=0, repo_src=None, samples=0):
         res.assumed += len(ctx.assumed)
         # cover obligation: the path condition is satisfiable (vacuity guard)
         for rec_ in records:
+            if _failed(res) >= 2:
+                break
             kind, name, hyps, goal = rec_[:4]
             relaxed = rec_[4] if len(rec_) > 4 else None
             oname = f"{c.name}#{kind}:{name}@{cid}/{path}"
             # a clause with a known-finding region: a short first attempt at the clause itself, then the relaxed clause
-            first_ms = timeout_ms if relaxed is None else min(timeout_ms, 8000)
+            budget = timeout_ms if _failed(res) == 0 else timeout_ms // 2      # a configuration that already fails gets less
+            first_ms = budget if relaxed is None else min(budget, 8000)
             status, model, secs, reason = solve(hyps, goal, first_ms, None, seed)
             res.solver_s += secs
             if status != "proved" and relaxed is not None:
@@ -960,10 +971,10 @@ def verify(cname, cfg, timeout_ms=20000, seed=0, repo_src=None, samples=0):
                 elif status == "unknown" and first_ms < timeout_ms:
                     status, model, secs, reason = solve(hyps, goal, timeout_ms, None, seed)
                     res.solver_s += secs
-            if status == "unknown" and sum(1 for o in res.obligations if o["status"] == "unknown") < 2:
-                # an undecided query is retried once with three times the budget and another seed, so that a busy machine
-                # does not turn a provable obligation into "undecided"
-                st3, m3, secs3, r3 = solve(hyps, goal, timeout_ms * 3, None, seed + 1)
+            if status == "unknown" and _failed(res) == 0:
+                # the first undecided query of a configuration is retried once with three times the budget and another seed,
+                # so that a busy machine does not turn a provable obligation into "undecided"
+                st3, m3, secs3, r3 = solve(hyps, goal, timeout_ms * 3, None, seed + 1, allow_split=False)
                 res.solver_s += secs3
                 if st3 != "unknown":
                     status, model, reason = st3, m3, r3
